@@ -60,6 +60,8 @@ pub struct CoroutinePool<'p> {
     workers: Scheduler<'p>,
     //当前协程数
     running: AtomicUsize,
+    //submissions between their state check and their push
+    submitting: AtomicUsize,
     //尝试取出任务失败的次数
     pop_fail_times: AtomicUsize,
     //最小协程数，即核心协程数
@@ -145,6 +147,7 @@ impl<'p> CoroutinePool<'p> {
             state: Cell::new(PoolState::Running),
             workers,
             running: AtomicUsize::new(0),
+            submitting: AtomicUsize::new(0),
             pop_fail_times: AtomicUsize::new(0),
             min_size: AtomicUsize::new(min_size),
             max_size: AtomicUsize::new(max_size),
@@ -207,6 +210,14 @@ impl<'p> CoroutinePool<'p> {
         self.task_queue.is_local_empty() && self.task_queue.is_global_empty()
     }
 
+    /// Returns `true` while a submission has passed (or is about to make) the
+    /// state check and has not pushed its task yet; a stop must not declare the
+    /// pool drained in that window.
+    pub(crate) fn has_submitting(&self) -> bool {
+        std::sync::atomic::fence(Ordering::SeqCst);
+        self.submitting.load(Ordering::SeqCst) > 0
+    }
+
     /// Returns the number of tasks owned by this pool.
     pub fn size(&self) -> usize {
         self.task_queue.len()
@@ -227,14 +238,20 @@ impl<'p> CoroutinePool<'p> {
 
     fn do_stop(&mut self, dur: Duration) -> std::io::Result<()> {
         let timeout_time = get_timeout_time(dur);
+        let mut submitting;
         loop {
+            // a submission in flight now may queue its task after this round:
+            // it counts as unfinished work, another round has to pick it up
+            submitting = self.has_submitting();
             _ = self.try_timeout_schedule_task(timeout_time)?;
-            if self.get_running_size() == 0 || timeout_time.saturating_sub(now()) == 0 {
+            if self.get_running_size() == 0 && !submitting
+                || timeout_time.saturating_sub(now()) == 0
+            {
                 break;
             }
             std::thread::sleep(Duration::from_millis(1));
         }
-        if self.get_running_size() > 0 {
+        if self.get_running_size() > 0 || submitting {
             // accepted tasks are still in progress: do not report success
             return Err(Error::new(ErrorKind::TimedOut, "stop timeout !"));
         }
@@ -265,6 +282,21 @@ impl<'p> CoroutinePool<'p> {
     /// Allow multiple threads to concurrently submit task to the pool,
     /// but only allow one thread to execute scheduling.
     pub fn submit_task(
+        &self,
+        name: Option<String>,
+        func: impl FnOnce(Option<usize>) -> Option<usize> + 'p,
+        param: Option<usize>,
+        priority: Option<c_longlong>,
+    ) -> std::io::Result<u64> {
+        // announce the submission before looking at the state: whoever stops the
+        // pool after this point waits until the task is queued (or refused)
+        _ = self.submitting.fetch_add(1, Ordering::SeqCst);
+        let result = self.do_submit_task(name, func, param, priority);
+        _ = self.submitting.fetch_sub(1, Ordering::SeqCst);
+        result
+    }
+
+    fn do_submit_task(
         &self,
         name: Option<String>,
         func: impl FnOnce(Option<usize>) -> Option<usize> + 'p,
